@@ -270,6 +270,34 @@ def sym_imag(x):
     return _orig["imag"](x)
 
 
+SYMBOLIC_RANDOM = False
+
+
+class RandProxy:
+    """np.random look-alike: with SYMBOLIC_RANDOM on, draws are fresh solver variables ("every draw")"""
+
+    def __getattr__(self, item):
+        return getattr(np.random, item)
+
+    @staticmethod
+    def _fresh(shape):
+        if isinstance(shape, (int, np.integer)):
+            shape = (int(shape),)
+        return S.sym_array(fresh_name("rnd"), tuple(int(x) for x in shape), "real")
+
+    def random(self, size=None):
+        if SYMBOLIC_RANDOM and size is not None:
+            return self._fresh(size)
+        return np.random.random(size)
+
+    random_sample = random
+
+    def rand(self, *shape):
+        if SYMBOLIC_RANDOM and shape:
+            return self._fresh(shape)
+        return np.random.rand(*shape)
+
+
 class NpProxy:
     """module-local stand-in for the `np` / `xp` name of a module under analysis: array *creators* with
     an unspecified or floating dtype return object arrays (filled with exact 0/1) so that symbols can be
@@ -279,6 +307,8 @@ class NpProxy:
         self._real = real
 
     def __getattr__(self, item):
+        if item == "random":
+            return RandProxy()
         r = getattr(self._real, item)
         if callable(r) and not isinstance(r, (type, np.ufunc)) and item not in ("dtype", "errstate", "finfo", "iinfo"):
             def wrapped(*a, **k):
